@@ -260,6 +260,13 @@ var verifReusedStats Stats
 
 func init() { mon.Register("{{.Name}}", verifRun) }
 
+// verifNested: a nested call of the package's own Parse whose error a code block hands on as it is
+// (the dynamic type of that error is the parser's own error list).
+func verifNested() error {
+	_, err := Parse("nested.txt", nil, Entrypoint("VerifNoSuchRule"))
+	return err
+}
+
 var _ = os.Stdout
 
 // verifSharedOpts: option values built once and handed to many (concurrent) Parse calls, as a
@@ -333,7 +340,7 @@ func verifRun(c *mon.Case) *mon.Result {
 	res := &mon.Result{ID: c.ID}
 	tr := &mon.Trace{Stress: c.Stress, Max: c.MaxEvents}
 	var vp *parser
-	opts := []Option{GlobalStore("mon", tr)}
+	opts := []Option{GlobalStore("mon", tr), GlobalStore(mon.NestedKey, verifNested)}
 	if c.SharedOpts {
 		opts = append(append([]Option{}, verifSharedOpts...), opts...)
 	}
